@@ -304,6 +304,11 @@ def replay(path):
     rec = json.load(open(path))
     pid = rec["property"]
     mod = importlib.import_module(getattr(rec, "module", None) or MODULES.get(pid, "vlib.props." + pid))
+    if "fuzz_input" in rec:
+        from . import fuzzprop
+        if hasattr(mod, "prepare_env"):
+            mod.prepare_env()
+        return fuzzprop.replay(pid, mod, os.path.dirname(path))
     for v in getattr(mod, "VARIANTS", ["plain"]):
         build.ensure(v)
     if hasattr(mod, "prepare"):
